@@ -18,7 +18,15 @@ STD = [  # (keyword, values by VM kind)
     ('SourceImageSequence', ['SQ']), ('RealWorldValueMappingSequence', ['SQ']), ('StudyDescription', ['']), ('AccessionNumber', [None]),
     ('PatientComments', ['   ']), ('RescaleSlope', ['1']), ('RescaleIntercept', ['0']), ('LossyImageCompression', ['00']),
     ('RedPaletteColorLookupTableDescriptor', [[256, 0, 16]]), ('BluePaletteColorLookupTableData', [b'\x00\x01\x02\x03']),
+    # neighbours of the ignored bulk data, by tag and by name: none of them is pixel, overlay or colour table data
+    ('PixelDataProviderURL', ['http://host/px']), ('PixelDataAreaOriginRelativeToFOV', [[1.5, 2.5]]),
+    ('PixelDataAreaRotationAngleRelativeToFOV', [30.0]), ('FramePixelDataPropertiesSequence', ['SQ']),
+    ('PixelPaddingValue', [0]), ('PixelAspectRatio', [['1', '1']]),
 ]
+
+
+NEIGHBOURS = ('PixelDataProviderURL', 'PixelDataAreaOriginRelativeToFOV', 'PixelDataAreaRotationAngleRelativeToFOV',
+              'PixelPaddingValue', 'PixelAspectRatio')
 
 
 def make_csa2(tags):
@@ -276,6 +284,11 @@ def main(pid, tier):
                 fails.append(('overlay', 'overlay data extracted: %s' % [k for k in res if k.split('_0X')[0] == 'OverlayData']))
             if 'ignore_color_lut_data' in rules and any('ColorLookupTableData' in k for k in res):
                 fails.append(('lut', 'colour table data extracted'))
+            # ... and nothing else is dropped by those rules: the neighbours of the bulk data, by tag and by name, keep their keys
+            for e in ds:
+                if e.keyword in NEIGHBOURS and e.value not in (None, '') and not any(k.split('_0X')[0] == e.keyword for k in res):
+                    fails.append(('dropped_neighbour', 'standard element %s %s (VR %s, value %r) has no key in the result: the ignore rules '
+                                  'are for pixel, overlay and colour table data only' % (e.keyword, e.tag, e.VR, e.value)))
             # conversions
             for e in ds:
                 k = e.keyword
